@@ -549,6 +549,9 @@ def run_history(prop, spec, ops, acc, gen=None, tail=True, judge_from=0, layer='
         except RecursionError:
             ret = None
             outcome = 'raise:RecursionError'
+        except RuntimeError:
+            ret = None
+            outcome = 'raise:RuntimeError'      # subclasses of RuntimeError are RuntimeErrors
         except Exception as e:
             ret = None
             outcome = 'raise:' + type(e).__name__
